@@ -79,7 +79,8 @@ pub fn build_column(spec: &ColumnSpec, arrays: &[ArrayImpl]) -> (Vec<BlockIndex>
         }
         return b.finish();
     }
-    let mut b = ColumnBuilderImpl::new_from_datatype(&spec.data_type, spec.nullable, spec.options());
+    let mut b =
+        ColumnBuilderImpl::new_from_datatype(&spec.data_type, spec.nullable, spec.options());
     for a in arrays {
         b.append(a);
     }
@@ -127,9 +128,12 @@ pub async fn read_column(
     let column = column_of(index_file, data)?;
     let mut out = vec![];
     if let (DataType::String, Some(w)) = (&spec.data_type, spec.char_width) {
-        let mut it =
-            CharColumnIterator::new(column, start, CharBlockIteratorFactory::new(Some(w as usize)))
-                .await?;
+        let mut it = CharColumnIterator::new(
+            column,
+            start,
+            CharBlockIteratorFactory::new(Some(w as usize)),
+        )
+        .await?;
         for op in ops {
             out.push(match op {
                 ReadOp::Next(n) => {
@@ -300,13 +304,21 @@ impl BuiltRowset {
         let start = self.start_rowid(&range).await;
         let mut it = self
             .rowset
-            .iter(col_refs.into(), dvs, ColumnSeekPosition::RowId(start), range)
+            .iter(
+                col_refs.into(),
+                dvs,
+                ColumnSeekPosition::RowId(start),
+                range,
+            )
             .await?;
         let mut out = vec![];
         while let Some(chunk) = it.next_batch(expected_size).await? {
             out.push(ScanBatch {
                 arrays: chunk.arrays().to_vec(),
-                visibility: chunk.visibility().as_ref().map(|v| v.iter().by_vals().collect()),
+                visibility: chunk
+                    .visibility()
+                    .as_ref()
+                    .map(|v| v.iter().by_vals().collect()),
             });
         }
         Ok(out)
